@@ -52,6 +52,30 @@ theorem storeLoop_delivers {α : Type} (k : Nat) (xs col : List α) (h : xs.leng
   have := (storeLoop_enum_get k xs 0 col (by omega)).2 j hj
   simpa using this
 
+theorem storeLoop_beyond {α : Type} (k : Nat) (xs : List α) :
+    ∀ (i : Nat) (col : List α) (j : Nat), i + xs.length ≤ j → (storeLoop k (enumIdx k) i xs col)[j]? = col[j]? := by
+  induction xs with
+  | nil => intro i col j _; rfl
+  | cons x xs ih =>
+    intro i col j hj
+    simp only [List.length_cons] at hj
+    have hev : evalIdx k (enumIdx k) i = some i := by simp [evalIdx]
+    simp only [storeLoop, hev]
+    rw [ih (i + 1) (col.set i x) j (by omega), List.getElem?_set_ne (by omega)]
+
+/-- the whole column after the loop: the gathered values in order, then the untouched rest — nothing is dropped, duplicated,
+    reordered or overwritten. -/
+theorem storeLoop_exact {α : Type} (k : Nat) (xs col : List α) (h : xs.length ≤ col.length) :
+    storeLoop k (enumIdx k) 0 xs col = xs ++ col.drop xs.length := by
+  apply List.ext_getElem?
+  intro j
+  by_cases hj : j < xs.length
+  · rw [storeLoop_delivers k xs col h j hj, List.getElem?_append_left hj]
+  · have hj' : xs.length ≤ j := by omega
+    rw [storeLoop_beyond k xs 0 col j (by omega), List.getElem?_append_right hj', List.getElem?_drop]
+    congr 1; omega
+
+
 /-! ### lock-step -/
 
 theorem repeatK_nil {α : Type} (f : List α → List α) (hf : f [] = []) : ∀ n, repeatK f n [] = []
